@@ -11,7 +11,7 @@ from props import _c08_objects as O
 
 LEVEL_TEXT = ("Theorems in Coq (abstract field with conjugation and a twiddle character, every NFFT, every coefficient vector): "
               "the model of arma2psd equals (rho/T)|B(w^k)|^2/|A(w^k)|^2 on the grid, is linear in rho and inverse in T, with lengths, raise "
-              "conditions, centerdc, normalisation, symmetry and non-negativity.  The twelve __call__ pipelines, the functional estimators' "
+              "conditions, centerdc, normalisation, symmetry and non-negativity.  The thirteen __call__ pipelines, the functional estimators' "
               "use of sampling/scale_by_freq and psd.py's scale/df/setters/Range are translated from the snapshot on every run into a Gallina "
               "table; over that table Coq re-proves scale_once (factor 2*pi/df applied exactly once, df = sampling/NFFT), the three "
               "sampling_value clauses and sampling_axis.  Both models are tied to the code by in-Coq correspondence runs (exact Gaussian "
@@ -19,7 +19,7 @@ LEVEL_TEXT = ("Theorems in Coq (abstract field with conjugation and a twiddle ch
 TRUSTED = ["Coq 8.16.1 kernel + vm_compute (no native_compute)",
            "hand-written model coq/Model/Arma2psd.v, tied to arma.py by the correspondence runs only; numpy.fft.fft modelled as the DFT sum",
            "fail-closed AST translator tools/props/_pipelines.py and the interpreter coq/Model/PipelineLib.v it targets, validated on every run "
-           "against real objects of all twelve classes (stored PSD, df, frequencies)",
+           "against real objects of all thirteen classes (stored PSD, df, frequencies)",
            "that speriodogram, CORRELOGRAMPSD, minvar, eigen, pmtm depend on sampling/scale_by_freq only as read off their source syntactically "
            "(checked numerically by the correspondence and the ratio search, not proved)",
            "Python harness (snapshot, generators, float->dyadic conversion, hex-float literals, twiddle tables from cmath)"]
@@ -30,11 +30,11 @@ ASSUMPTIONS = ["exact arithmetic in the theorems; tolerance 1e-9 relative only i
                "arma2psd_formula: rho and T real, T <> 0, A(w^k) <> 0 at the bin (the code divides without a guard)",
                "sampling_value_model: both sampling rates non-zero"]
 RULE = ("arma2psd: low-bit dyadic real/complex coefficient vectors (lengths 0..6), A/B absent, NFFT 1..64 (exact runs at 1,2,4), both sides, norm, "
-        "out-of-domain NFFT <= len; classes: all twelve x real/complex x NFFT even/odd/power of two (>= N) x sampling log-uniform in (1e-2,1e5) x "
+        "out-of-domain NFFT <= len; classes: all thirteen (the twelve of DESIGN Appendix A and pdaniell) x real/complex x NFFT even/odd/power of two (>= N) x sampling log-uniform in (1e-2,1e5) x "
         "scale_by_freq in {False,True} x fresh object / sampling assigned later / flag toggled later; a case is non-trivial when the data are "
         "not constant and N >= 3; distinct = distinct (site, input) hashes")
 
-GEN_NAMES = ['table_complete', 'state_consistent', 'stored_length_complex', 'scale_once', 'sampling_value_model',
+GEN_NAMES = ['table_complete', 'state_consistent', 'stored_length_complex', 'model_classes_arma2psd', 'scale_once', 'sampling_value_model',
              'sampling_value_fixed', 'sampling_value_minvar', 'sampling_axis', 'sampling_axis_scales']
 TWOPI = 2 * math.pi
 
@@ -161,6 +161,7 @@ def class_clauses(cname, x, cfg, NFFT, s1, s2):
     """the clauses of C08 on one class / data / configuration, evaluated on real objects; returns [(key, what)]"""
     dt = 'complex' if np.iscomplexobj(x) else 'real'
     grp = O.GROUP[cname]
+    fresh_only = (cname, dt) in O.FRESH_ONLY
     bad = []
 
     def fresh(s, sbf):
@@ -176,19 +177,22 @@ def class_clauses(cname, x, cfg, NFFT, s1, s2):
                     % ('%.6g' % float(np.median(r)) if r is not None else 'length mismatch', s1, NFFT, k1)))
     # the flag toggled on an existing object
     p = O.make(cname, x, cfg, s1, NFFT, False); _ = p.psd; p.scale_by_freq = True
-    if not close(np.array(p.psd, dtype=float), a1 * k1):
+    if not fresh_only and not close(np.array(p.psd, dtype=float), a1 * k1):
         bad.append(('scale_once/%s/%s/toggle' % (cname, dt), 'after p.scale_by_freq = True on an object computed with False: psd != psd(False)*2pi/df'))
     exp = a1 * {'model': s1 / s2, 'fixed': 1.0, 'minvar': s2 / s1}[grp]
     if not close(a2, exp):
         r = a2 / a1 if a1.shape == a2.shape else None
         bad.append(('sampling_value/%s/%s' % (cname, dt), 'sampling %r -> %r (factor %r): psd changed by %s, required %r'
                     % (s1, s2, s2 / s1, '%.6g' % float(np.median(r)) if r is not None else 'length mismatch', {'model': s1 / s2, 'fixed': 1.0, 'minvar': s2 / s1}[grp])))
+    nax = pa2.NFFT if fresh_only else NFFT        # (pdaniell, complex): the axis of the decimated spectrum the object now holds
     for sides in ('onesided', 'twosided', 'centerdc'):
         f = np.array(pa2.frequencies(sides), dtype=float)
-        if not close(f, axis_oracle(sides, s2, NFFT)):
-            bad.append(('sampling_axis/%s/%s/fresh' % (cname, sides), 'frequencies(%s) != bins*sampling/NFFT (sampling=%r, NFFT=%d)' % (sides, s2, NFFT)))
-    if not close([pa2.df], [s2 / NFFT]):
-        bad.append(('sampling_axis/%s/df/fresh' % cname, 'df = %r, sampling/NFFT = %r' % (pa2.df, s2 / NFFT)))
+        if not close(f, axis_oracle(sides, s2, nax)):
+            bad.append(('sampling_axis/%s/%s/fresh' % (cname, sides), 'frequencies(%s) != bins*sampling/NFFT (sampling=%r, NFFT=%d)' % (sides, s2, nax)))
+    if not close([pa2.df], [s2 / nax]):
+        bad.append(('sampling_axis/%s/df/fresh' % cname, 'df = %r, sampling/NFFT = %r' % (pa2.df, s2 / nax)))
+    if fresh_only:
+        return bad
     # sampling assigned on an existing object
     for sbf, want in ((True, b2), (False, a2)):
         p = O.make(cname, x, cfg, s1, NFFT, sbf); _ = p.psd; p.sampling = s2
@@ -285,7 +289,7 @@ def run(ctx):
 
     # ---------------- correspondence: arma2psd, exact at NFFT in {1,2,4}
     cases = []; meta = []
-    n = ctx.q(120, 900); tries = 0
+    n = ctx.q(120, 2000); tries = 0
     while len(cases) < n and tries < 20 * n:
         tries += 1
         NFFT = int(rng.choice([1, 2, 2, 4, 4, 4, 4]))
@@ -326,7 +330,7 @@ def run(ctx):
 
     # ---------------- correspondence: arma2psd, binary64 with a twiddle table
     cases = []; meta = []
-    n = ctx.q(150, 1200); tries = 0
+    n = ctx.q(150, 3000); tries = 0
     while len(cases) < n and tries < 20 * n:
         tries += 1
         NFFT = int(rng.choice([3, 5, 6, 7, 8, 9, 12, 16, 17, 24, 31, 32]))
@@ -363,7 +367,7 @@ def run(ctx):
     # ---------------- correspondence: the generated pipeline interpreter against real objects
     if table_v is not None:
         cases = []; meta = []
-        per = ctx.q(3, 20)
+        per = ctx.q(3, 50)
         for cname in O.CLASS_NAMES:
             for cplx in (False, True):
                 got = 0; tries = 0
@@ -381,6 +385,8 @@ def run(ctx):
                                 ctx.count('pipeline/regenerated_nonfinite'); continue
                             for sbf in (False, True):
                                 for setter in (False, True):
+                                    if setter and (cname, 'complex' if cplx else 'real') in O.FRESH_ONLY:
+                                        continue
                                     if setter:
                                         p = O.make(cname, x, cfg, s0, NFFT, sbf); _ = p.psd; p.sampling = s
                                     else:
@@ -392,7 +398,7 @@ def run(ctx):
                                                  'sampling0': s0, 'sampling': s, 'NFFT': NFFT, 'cfg': cfg, 'data': vlib.hexv(x)})
                                     ctx.case(('pipe', cname, x.tobytes(), repr(cfg), NFFT, s0, s, sbf, setter), nontrivial=True,
                                              sample={'class': cname, 'datatype': 'complex' if cplx else 'real', 'N': N, 'NFFT': NFFT, 'sampling': s, 'scale_by_freq': sbf, 'cfg': cfg})
-                                    if sbf:
+                                    if sbf and (cname, 'complex' if cplx else 'real') not in O.FRESH_ONLY:
                                         sd = str(rng.choice(['onesided', 'twosided', 'centerdc']))
                                         cases.append('axis_case %s %s %s %s %s %d%%nat %s %s' % (fl(1e-9), sd.capitalize(), b2c(setter), fl(s0), fl(s), NFFT,
                                                      fll(p.frequencies(sd)), fl(p.df)))
@@ -403,11 +409,33 @@ def run(ctx):
                     got += 1
                     ctx.count('pipeline/%s/%s/%s/NFFT%s' % (cname, 'complex' if cplx else 'real', style, 'even' if NFFT % 2 == 0 else 'odd'))
         pre = table_v + PRE_P
-        for i in ctx.coq_cases('c08_pipelines', pre, cases, descr='generated pipeline interpreter (PipelineLib.stored / st_frequencies / st_df at binary64) vs real objects of the twelve classes'):
+        for i in ctx.coq_cases('c08_pipelines', pre, cases, descr='generated pipeline interpreter (PipelineLib.stored / st_frequencies / st_df at binary64) vs real objects of the thirteen classes'):
             ctx.corr_disagreement('pipeline:' + meta[i]['site'], i, meta[i])
 
+    # ---------------- the non-numeric columns of the table against real objects
+    if tab is not None:
+        nbad = 0
+        for cname in O.CLASS_NAMES:
+            i = tab['classes'][cname]
+            for cplx in (False, True):
+                x, _ = O.draw_data(rng, 20, cplx, style='tone'); cfg = O.draw_cfg(rng, cname, 20)
+                p = O.make(cname, x, cfg, 1.0, 32, None)
+                obs = {'default_sbf': bool(p.scale_by_freq)}
+                with np.errstate(all='ignore'):
+                    r = p()
+                obs['returns_self'] = r is p
+                obs['stores_set'] = all(getattr(p, a, None) is not None for a, _ in i['stores'])
+                obs['modified_after_call'] = bool(p.modified)
+                want = {'default_sbf': i['default_sbf'], 'returns_self': i['returns_self'], 'stores_set': True, 'modified_after_call': False}
+                ctx.case(('table-columns', cname, cplx), nontrivial=True)
+                if obs != want:
+                    nbad += 1
+                    ctx.corr_disagreement('pipeline-table:' + cname, cname, {'observed': obs, 'table': want})
+        ctx.corr['c08_table_columns'] = {'cases': 2 * len(O.CLASS_NAMES), 'disagreements': nbad,
+                                         'description': 'default scale_by_freq, return value, stored attributes, modified flag of every class vs the generated table'}
+
     # ---------------- property-directed search: arma2psd against the polynomial oracle
-    for it in range(ctx.q(250, 2500)):
+    for it in range(ctx.q(250, 10000)):
         NFFT = int(rng.choice([2, 3, 4, 5, 7, 8, 16, 31, 32, 33, 64]))
         style = str(rng.choice(['lowbit', 'stable', 'stable']))
         if style == 'lowbit':
@@ -443,7 +471,7 @@ def run(ctx):
                                       'B_real': B is not None and not np.iscomplexobj(B), 'rho': rho.hex(), 'T': T.hex(), 'NFFT': NFFT, 'c': c.hex()})
 
     # ---------------- property-directed search: the ratio tests on real objects
-    per = ctx.q(3, 30)
+    per = ctx.q(3, 100)
     for cname in O.CLASS_NAMES:
         for cplx in (False, True):
             got = 0; tries = 0
